@@ -165,8 +165,41 @@ pub fn expansion_count(p: &str) -> Option<u64> {
 
 fn corrupt(rng: &mut Rng, doc: &mut Vec<u8>, other: &[u8], log: &mut Vec<String>) {
     let n = doc.len();
-    let kind = rng.below(22);
+    let kind = rng.below(23);
     let name = match kind {
+        22 => {
+            // scale: an innermost brace group grows to more than 255 / 256 alternatives
+            let opens: Vec<usize> = (0..n).filter(|&i| doc[i] == b'{').collect();
+            let inner: Vec<(usize, usize)> = opens
+                .iter()
+                .filter_map(|&a| {
+                    let l = doc[a + 1..].iter().position(|&c| c == b'{' || c == b'}')?;
+                    if doc[a + 1 + l] == b'}' {
+                        Some((a, a + 1 + l))
+                    } else {
+                        None
+                    }
+                })
+                .collect();
+            if !inner.is_empty() {
+                let (a, b) = *rng.pick(&inner);
+                let k = *rng.pick(&[253usize, 254, 255, 256, 257, 300]);
+                let mut extra = String::new();
+                for i in 0..k {
+                    extra.push_str(&format!(",w{}", i));
+                }
+                let at = if rng.chance(1, 2) { b } else { a + 1 };
+                if at == a + 1 {
+                    // in front: "w0,w1,...," then the old alternatives
+                    let mut e = extra[1..].to_string();
+                    e.push(',');
+                    doc.splice(at..at, e.bytes());
+                } else {
+                    doc.splice(at..at, extra.bytes());
+                }
+            }
+            "widen_brace_group"
+        }
         21 => {
             // an innermost brace group G becomes {G..G,G..G,z}: groups nested inside
             // alternatives.  The csh expansion stays small (m * |G|^k + 1 strings) while
@@ -389,10 +422,18 @@ fn corrupt(rng: &mut Rng, doc: &mut Vec<u8>, other: &[u8], log: &mut Vec<String>
         }
         8 => {
             let at = rng.urange(0, n);
-            let c = *rng.pick(b"a1 {,*[-=<>.n");
-            let l = rng.urange(300, 6000);
-            doc.splice(at..at, std::iter::repeat(c).take(l));
-            "long_line"
+            if rng.chance(1, 8) {
+                // scale: one line beyond 64 KiB (and with it a document beyond 64 KiB)
+                let c = *rng.pick(b"a1 .n/x");
+                let l = rng.urange(65_530, 70_000);
+                doc.splice(at..at, std::iter::repeat(c).take(l));
+                "huge_line"
+            } else {
+                let c = *rng.pick(b"a1 {,*[-=<>.n");
+                let l = rng.urange(300, 6000);
+                doc.splice(at..at, std::iter::repeat(c).take(l));
+                "long_line"
+            }
         }
         9 => {
             for b in doc.iter_mut() {
@@ -460,8 +501,10 @@ fn corrupt_some(rng: &mut Rng, doc: &mut Vec<u8>, other: &[u8], log: &mut Vec<St
     for _ in 0..k {
         corrupt(rng, doc, other, log);
     }
-    if doc.len() > 16384 {
-        doc.truncate(16384);
+    // documents stay small (honest cost: microseconds) unless a scale corruption fired
+    let cap = if log.iter().any(|k| k == "huge_line") { 262_144 } else { 16_384 };
+    if doc.len() > cap {
+        doc.truncate(cap);
     }
 }
 
@@ -639,6 +682,18 @@ fn gen_dop_val(rng: &mut Rng, var: usize) -> Val {
 // pipelines
 // ---------------------------------------------------------------------------
 
+/// Pattern tokens are clipped to 160 bytes (honest cost: microseconds) - except
+/// brace patterns with few glob characters, which may hold a group of hundreds
+/// of alternatives: their cost is bounded by the expansion count instead.
+fn clip_pattern(s: &str) -> &str {
+    let globs = s.bytes().filter(|c| matches!(c, b'*' | b'?' | b'[')).count();
+    if s.contains('{') && globs <= 8 {
+        clip(s, 4096)
+    } else {
+        clip(s, 160)
+    }
+}
+
 fn clip(s: &str, max: usize) -> &str {
     if s.len() <= max {
         return s;
@@ -778,7 +833,7 @@ fn pipeline_a(doc: &[u8], script: &[ReadStep], buffered: Option<usize>, ctx: &mu
         }
         if let Some(v) = line.strip_prefix("ALL_DEPENDS=") {
             for tok in v.split_whitespace().take(12) {
-                let tok = clip(tok, 160);
+                let tok = clip_pattern(tok);
                 let r = Depend::new(tok);
                 fe(&r);
                 ep!(ctx, "Depend::new", r.is_ok());
@@ -1011,7 +1066,7 @@ fn pipeline_b(
                 let _ = (pl.files(), pl.files_prefixed(), pl.install_cmds(), pl.uninstall_cmds(), pl.is_preserve());
                 for dep in pl.depends().iter().take(8) {
                     sum.push_depends(dep);
-                    let p = Pattern::new(clip(dep, 160));
+                    let p = Pattern::new(clip_pattern(dep));
                     ep!(ctx, "Pattern::new", p.is_ok());
                     if let Ok(p) = p {
                         let names = vec![
@@ -1393,7 +1448,7 @@ fn pipeline_e(doc: &[u8], script: &[ReadStep], hash_seed: u64, ctx: &mut Ctx) ->
         }
         for list in [e.depends(), e.conflicts(), e.supersedes()].into_iter().flatten() {
             for d in list.iter().take(6) {
-                let p = metered!(ctx, 160 + 64, Pattern::new(clip(d, 160)));
+                let p = metered!(ctx, 4096 + 64, Pattern::new(clip_pattern(d)));
                 ep!(ctx, "Pattern::new", p.is_ok());
                 if let Ok(p) = p {
                     exercise_pattern(ctx, &p, &names);
@@ -2054,6 +2109,8 @@ fn count_corruption(ctx: &mut Ctx, name: &str) {
         "odd_blank" => "odd_blank",
         "boundary_number" => "boundary_number",
         "nest_brace_groups" => "nest_brace_groups",
+        "huge_line" => "huge_line",
+        "widen_brace_group" => "widen_brace_group",
         "empty_metadata_file" => "empty_metadata_file",
         "garbage_metadata_file" => "garbage_metadata_file",
         _ => "other_corruption",
